@@ -435,6 +435,12 @@ XalanQNameByValue::resolvePrefix(
             {
                 m_namespace = *theNamespace;
             }
+            else
+            {
+                // This instance may be re-used (the execution context has one
+                // scratch QName): do not keep the namespace of the previous name.
+                m_namespace.clear();
+            }
         }  
 
         if(m_namespace.empty() == true)
